@@ -49,7 +49,7 @@ def expected_check_bytes(h, buf):
     return list(crc_spec.check_bytes(buf))
 
 
-@oset("crc16.calculate", ["C06", "C03"], [CALC],
+@oset("crc16.calculate", ["C06", "C03", "C04"], [CALC],
       assumptions=["bytes objects hold values 0..255 (CPython invariant)"])
 def calculate_contract(h):
     buf = h.abytes("buffer", max_len=None)
